@@ -1125,3 +1125,46 @@ func init() {
 		}
 	}
 }
+
+// mayAcceptUnder: with the given argument values and callee results, some exit of f reports success.
+func (c *Ctx) mayAcceptUnder(p *Program, rule, what string, f *ssa.Function, args map[string]lat, as []Assume, vas []ValAssume) {
+	if f == nil {
+		c.undecided(rule, what, "anchor function does not resolve", "")
+		return
+	}
+	construct := fname(f) + ": " + what
+	q := &GuardQuery{P: p, Root: f, MaxDepth: 1, Assumes: as, ValAssumes: vas}
+	q.Args = make([]lat, len(f.Params))
+	for i := range q.Args {
+		q.Args[i] = latTop
+	}
+	for n, v := range args {
+		i := paramIdx(f, n)
+		if i < 0 {
+			c.undecided(rule, construct, "parameter "+n+" does not exist", p.fnPos(f))
+			return
+		}
+		q.Args[i] = v
+	}
+	r := runGuard(q)
+	for _, a := range as {
+		if len(r.Sites[a.Name]) == 0 {
+			c.undecided(rule, construct, "no executable call of "+a.Name+" under these arguments", p.fnPos(f))
+			return
+		}
+	}
+	for _, va := range vas {
+		if len(r.Sites[va.Name]) == 0 {
+			c.undecided(rule, construct, "value "+va.Name+" not found in the function", p.fnPos(f))
+			return
+		}
+	}
+	succ := succAuto(f)
+	for _, ri := range r.Returns {
+		if ri.Instr.Parent() == f && succ.may(ri.Vals) {
+			c.ok(rule, construct, "a success exit is reachable at "+p.pos(ri.Instr.Pos()), p.fnPos(f))
+			return
+		}
+	}
+	c.bad(rule, construct, "no exit reports success under these values: a legal input is refused", p.fnPos(f))
+}
